@@ -22,7 +22,7 @@ def normalise(events):
 
 
 NOISE = {"PollCheck", "Healthy", "SWHeader", "SWWrite", "SWClose", "SerStart", "SerDone", "Attempt", "AttemptStatus",
-         "AttemptErr", "BrsRead", "BrsSeek", "Backoff", "ListFail", "HealthProbe", "WServed", "WClosed", "WForward"}
+         "AttemptErr", "BrsRead", "BrsSeek", "Backoff", "ListFail", "HealthProbe", "WServed", "WClosed", "WForward", "ListFault"}
 
 
 def project(events, drop):
@@ -304,7 +304,54 @@ def c04(ctx):
     relay_validate(ctx, events)
 
 
-CHECKS = {"C01": c01, "C04": c04}
+def c07(ctx):
+    ctx.rule = ("cases = (fault kind x victim position) scenarios: backend close/garbage/reset/short body, chaos on fetch (500/404/garbled) and upload "
+                "(reject/garble/reset), failing list calls, malformed websocket-shim calls, unreachable backend; each with healthy concurrent requests "
+                "before/during/after; distinct = distinct (kind, position)")
+    ctx.assumptions = ["a victim may get any outcome; every other client must get its own OK response and the agent must be alive at the end",
+                       "fault positions are relative to a burst of 10 concurrent requests; exact interleavings are left to the scheduler (TLC enumerates them in the model)"]
+    thorough = ctx.tier == "thorough"
+    tlc_must_hold(ctx, "Relay", "Relay_MC.cfg")
+    tlc_must_hold(ctx, "Relay", "Relay_Live.cfg")
+    if thorough:
+        tlc_must_hold(ctx, "Relay", "Relay_MCbig.cfg", timeout=1500)
+    tlc_must_fail(ctx, "Relay", "Relay_Attack_NoIsolation.cfg")
+    build_relay_bins(ctx, race=thorough)
+    go_build_harness(ctx)
+    events, _ = drive(ctx, "relay", mode="faults", timeout=2400)
+    # what each victim observed (information for the evidence file)
+    vict = {e["r"]: e.get("kind") for e in events if e.get("ev") == "Fault"}
+    outcome = {}
+    for e in events:
+        if e.get("ev") in ("ClientRecv", "ClientGaveUp") and e.get("r") in vict:
+            outcome.setdefault(vict[e["r"]], []).append(e.get("kind", "no-answer") if e["ev"] == "ClientRecv" else "no-answer")
+    ctx.extra["victim_outcomes"] = {k: sorted(set(v)) for k, v in outcome.items()}
+    healthy = [e for e in events if e.get("ev") == "ClientRecv" and e.get("r") not in vict]
+    ctx.extra["healthy_requests_answered_ok"] = sum(1 for e in healthy if e.get("kind") == "ok")
+    if "backend-down" in outcome and set(outcome["backend-down"]) != {"502"}:
+        ctx.notes.append("backend-down victims saw %s" % sorted(set(outcome["backend-down"])))
+    fails = relay_validate(ctx, events)
+    if not fails:
+        segs = split_segments(uniquify_pollers(project(events, NOISE - {"WForward"})))
+
+        def victim_becomes_other(seg):
+            # an error answer delivered to a client that was not declared a victim
+            rec = [e for e in seg if e.get("ev") == "ClientRecv" and e.get("kind") == "ok"]
+            if not rec:
+                return False
+            rec[-1]["kind"] = "502"
+            return True
+
+        def agent_dies(seg):
+            for e in seg:
+                if e.get("ev") == "Final":
+                    e["agent_alive"] = False
+                    return True
+            return False
+        selftest(ctx, "RelayTrace", "RelayTrace.cfg", segs[0], [("healthy-client-gets-502", victim_becomes_other), ("agent-dead-at-end", agent_dies)])
+
+
+CHECKS = {"C01": c01, "C04": c04, "C07": c07}
 
 if __name__ == "__main__":
     pid = sys.argv[1]
